@@ -103,7 +103,7 @@ static void add_item(int fam, int mode, int a, int b, int c, int d)
 	if (n_items == cap_items) { cap_items = cap_items ? cap_items * 2 : 2048; items = realloc(items, cap_items * sizeof *items); }
 	struct item *it = &items[n_items++]; it->fam = (uint8_t)fam; it->mode = (uint8_t)mode; it->a = (int16_t)a; it->b = (int16_t)b; it->c = (int16_t)c; it->d = (int16_t)d;
 }
-static const char *pool_names[] = { "a.test", "b.a.test", "c.b.a.test", "a.test.", "A.test", "b.A.test", "x.y", "test", "a.b", "b.a", "aa.test", "*.a.test", "c.b.a.test.", "" };
+static const char *pool_names[] = { "a.test", "b.a.test", "c.b.a.test", "a.test.", "A.test", "b.A.test", "x.y", "test", "a.b", "b.a", "aa.test", "*.a.test", "c.b.a.test.", "", "." };
 #define N_POOL ((int)(sizeof pool_names / sizeof pool_names[0]))
 #define QNAME_DEFAULT "sweep.zone.test"
 
@@ -149,8 +149,8 @@ static void scenario(struct evdns_server_request *req)
 		break;
 	case F_NAMES:
 		/* a: question name (sent on the wire), b: owner, c: target, d: kind */
-		if (it->d == 0) add_cname(pool_names[it->b], pool_names[it->c], 100);
-		else if (it->d == 1) add_ptr_name(pool_names[it->b], pool_names[it->c], 100);
+		if ((it->d & 3) == 0) add_cname(pool_names[it->b], pool_names[it->c], 100);
+		else if ((it->d & 3) == 1) add_ptr_name(pool_names[it->b], pool_names[it->c], 100);
 		else { add_name_rr(S_AUTH, pool_names[it->b], 2, pool_names[it->c], 100); add_cname(pool_names[it->c], pool_names[it->b], 50); }
 		break;
 	case F_TABLE:
@@ -288,7 +288,7 @@ static void run_sweep(const struct item *it, int mode, unsigned opt_query, size_
 	g_fill = 0; g_err = 0; g_setflags = -1;
 	if (exchange(mode, QNAME_DEFAULT, probe_opt) || !g_r.have) { if (!mc_failed()) mc_fail("harness:probe", "%s: probe exchange gave no response", g_ctx); return; }
 	long want = (long)target + delta - (long)g_r.n;
-	if (want < 0) { mc_fail("harness:sweep-base-too-large", "%s: base response %zu > target %zu", g_ctx, g_r.n, target + (size_t)delta); return; }
+	if (want < 0) { MC_COUNT("sweep_skipped_base_larger_than_target"); mc_observe("(skipped: base %zu > target) ", g_r.n); return; }
 	g_fill = want;
 	/* the complete encoding with that filler (unlimited transport) */
 	if (mode != SM_TCP || target + (size_t)delta <= 65535) {
@@ -388,7 +388,7 @@ static void run_plain(const struct item *it, int mode, const char *qname, unsign
 static void generate(const char *tier)
 {
 	int thorough = !strcmp(tier, "thorough");
-	int span = thorough ? 24 : 8;
+	int span = thorough ? 48 : 8;
 	for (int d = -span; d <= span; d++) for (int mix = 0; mix < 3; mix++) for (int k = 0; k <= (thorough ? 20 : 5); k += 5) for (int sec = 0; sec < 3; sec++) {
 		if (!thorough && sec != (mix + k / 5) % 3) continue;
 		if (k <= 10) {       /* more leading records would not fit under 512 - span */
@@ -396,18 +396,22 @@ static void generate(const char *tier)
 			if (mix == 0 && sec == 0) add_item(F_SWEEP512, SM_DIRECT, k, sec, mix, d);
 		}
 		add_item(F_SWEEPEDNS, SM_UDP, k, sec, mix, d);
+		if (thorough && mix != 1) add_item(F_SWEEPEDNS, SM_DIRECT, k, sec, mix, d);
 	}
-	for (int d = -(thorough ? 40 : 24); d <= (thorough ? 60 : 30); d++) add_item(F_SWEEP16K, SM_TCP, 0, 0, 0, d);
-	for (int d = -(thorough ? 12 : 6); d <= (thorough ? 12 : 6); d++) for (int a = 0; a < 2; a++) add_item(F_SWEEP64K, SM_TCP, a, 0, 0, d);
-	for (int d = -(thorough ? 120 : 64); d <= (thorough ? 40 : 16); d++) add_item(F_STRADDLE, SM_TCP, 0, 0, 0, d);   /* start of the name: 0x4000 + d */
+	for (int d = -(thorough ? 200 : 24); d <= (thorough ? 200 : 30); d++) add_item(F_SWEEP16K, SM_TCP, 0, 0, 0, d);
+	for (int d = -(thorough ? 60 : 6); d <= (thorough ? 60 : 6); d++) for (int a = 0; a < 2; a++) add_item(F_SWEEP64K, SM_TCP, a, 0, 0, d);
+	for (int d = -(thorough ? 400 : 64); d <= (thorough ? 100 : 16); d++) add_item(F_STRADDLE, SM_TCP, 0, 0, 0, d);   /* start of the name: 0x4000 + d */
 	for (int q = 0; q < N_POOL; q++) for (int o = 0; o < N_POOL; o++) for (int t = 0; t < N_POOL; t++) for (int kind = 0; kind < 3; kind++) {
 		if (pool_names[q][0] == 0) continue;                                 /* question names come from the wire: not the root */
 		if (strchr(pool_names[q], 0)[-1] == '.') continue;                   /* ... and have no trailing dot */
 		if (!thorough && kind != (q + o + t) % 3) continue;
 		add_item(F_NAMES, SM_UDP, q, o, t, kind);
+		if (thorough) { add_item(F_NAMES, SM_UDP, q, o, t, kind + 4); add_item(F_NAMES, SM_TCP, q, o, t, kind); add_item(F_NAMES, SM_DIRECT, q, o, t, kind + 4); }   /* +4: the query carries an OPT record */
 	}
 	for (int q = 0; q < 3; q++) for (int o = 0; o < N_POOL; o += 2) add_item(F_NAMES, SM_TCP, q, o, (o + 3) % N_POOL, q);
-	{ static const int ns[] = { 1, 20, 42, 43, 44, 60, 100 }; for (size_t i = 0; i < sizeof ns / sizeof ns[0]; i++) { add_item(F_TABLE, SM_TCP, ns[i], 0, 0, 0); if (ns[i] <= 60) add_item(F_TABLE, SM_UDP, ns[i], 4096, 0, 0); } }
+	{ static const int nsq[] = { 1, 20, 42, 43, 44, 60, 100 }; static int nst[140]; const int *ns = nsq; size_t nn = sizeof nsq / sizeof nsq[0];
+	  if (thorough) { for (int i = 0; i < 140; i++) nst[i] = i + 1; ns = nst; nn = 140; }
+	  for (size_t i = 0; i < nn; i++) { add_item(F_TABLE, SM_TCP, ns[i], 0, 0, 0); if (ns[i] <= 60) add_item(F_TABLE, SM_UDP, ns[i], 4096, 0, 0); } }
 	for (int p = 0; p < 6; p++) for (int b = 0; b < 5; b++) for (int c = 0; c < 5; c++) for (int f = 0; f < 2; f++) {
 		if (!thorough && (p + b + c + f) % 3) continue;
 		add_item(F_SECTIONS, SM_UDP, p, b, c, f); if (thorough || f) add_item(F_SECTIONS, SM_TCP, p, b, c, f);
@@ -428,7 +432,7 @@ static void item_fn(uint64_t idx)
 	case F_SWEEP16K: snprintf(g_ctx, sizeof g_ctx, "tcp sweep16k delta=%+d", it->d); run_sweep(it, SM_TCP, 0, 65535, 16384 + 120, it->d); break;
 	case F_STRADDLE: snprintf(g_ctx, sizeof g_ctx, "tcp straddle16k name-start=0x4000%+d", it->d); run_straddle((size_t)(0x4000 + it->d)); break;
 	case F_SWEEP64K: snprintf(g_ctx, sizeof g_ctx, "tcp sweep64k tail=%d delta=%+d", it->a, it->d); run_sweep(it, SM_TCP, 0, 65535, 65535, it->d); break;
-	case F_NAMES: snprintf(g_ctx, sizeof g_ctx, "%s names q='%s' owner='%s' target='%s' kind=%d", mn[it->mode], pool_names[it->a], pool_names[it->b], pool_names[it->c], it->d); run_plain(it, it->mode, pool_names[it->a], 0); break;
+	case F_NAMES: snprintf(g_ctx, sizeof g_ctx, "%s names q='%s' owner='%s' target='%s' kind=%d", mn[it->mode], pool_names[it->a], pool_names[it->b], pool_names[it->c], it->d); run_plain(it, it->mode, pool_names[it->a], (it->d & 4) ? 1232 : 0); break;
 	case F_TABLE: snprintf(g_ctx, sizeof g_ctx, "%s label-table n=%d", mn[it->mode], it->a); run_plain(it, it->mode, "q.z0", (unsigned)it->b); break;
 	case F_SECTIONS: snprintf(g_ctx, sizeof g_ctx, "%s sections perm=%d rawlen=%d ttl=%d aa=%d", mn[it->mode], it->a, it->b, it->c, it->d); run_plain(it, it->mode, "zone.test", 4096); break;
 	case F_ERR: snprintf(g_ctx, sizeof g_ctx, "%s respond(err=%d)", mn[it->mode], it->a); g_err = it->a; run_plain(it, it->mode, QNAME_DEFAULT, 0); break;
